@@ -6,6 +6,9 @@ abbrev Bytes := List UInt8
 
 def str (s : String) : Bytes := s.toUTF8.toList
 
+/-- an ASCII literal as bytes; unlike `str` this reduces in the kernel (`decide`) -/
+def ascii (s : String) : Bytes := s.toList.map (fun c => UInt8.ofNat c.toNat)
+
 /-- Go slice expression `s[a:b]` on a string: `none` is the run-time panic "slice bounds out of range" -/
 def slice? (s : Bytes) (a b : Int) : Option Bytes :=
   if 0 ≤ a ∧ a ≤ b ∧ b ≤ s.length then some ((s.drop a.toNat).take (b.toNat - a.toNat)) else none
